@@ -701,6 +701,23 @@ func factOf(cond ssa.Value, polarity bool) (relFact, bool) {
 // edgeFacts returns the relational facts that hold when control flows along pred -> succ: the guards that dominate
 // pred plus the branch taken at the end of pred.
 func edgeFacts(pred, succ *ssa.BasicBlock) []relFact {
+	return bothOrientations(edgeFacts1(pred, succ))
+}
+
+// bothOrientations adds "Y flip(op) X" for every "X op Y": a rule that looks for a fact about a value finds it whichever
+// side of the comparison the source put it on.
+func bothOrientations(fs []relFact) []relFact {
+	out := make([]relFact, 0, 2*len(fs))
+	for _, f := range fs {
+		out = append(out, f)
+		{
+			out = append(out, relFact{f.Y, flipOp(f.Op), f.X})
+		}
+	}
+	return out
+}
+
+func edgeFacts1(pred, succ *ssa.BasicBlock) []relFact {
 	var out []relFact
 	for _, g := range guardsOf(pred) {
 		if f, ok := factOf(g.If.Cond, g.Succ == 0); ok {
@@ -729,7 +746,7 @@ func blockFacts(b *ssa.BasicBlock) []relFact {
 			out = append(out, f)
 		}
 	}
-	return out
+	return bothOrientations(out)
 }
 
 // retErrNil: does this Return return a nil error in its last result? (handles the defer-spilled named/unnamed
@@ -1189,4 +1206,91 @@ func cmpForms(cond ssa.Value) []cmpForm {
 		{b.X, b.Y, negateOp(b.Op), succF},
 		{b.Y, b.X, flipOp(negateOp(b.Op)), succF},
 	}
+}
+
+// backwardSlice: the values v is computed from inside its function: operands, call arguments and receivers, and - for
+// objects allocated here - what is stored into them and what the calls that receive them are given besides. Phis are
+// followed; the walk stops at parameters, globals and constants (which are part of the result).
+func backwardSlice(v ssa.Value, limit int) []ssa.Value {
+	seen := map[ssa.Value]bool{}
+	var out []ssa.Value
+	var work []ssa.Value
+	push := func(x ssa.Value) {
+		if x == nil || seen[x] || len(seen) >= limit {
+			return
+		}
+		seen[x] = true
+		out = append(out, x)
+		work = append(work, x)
+	}
+	push(v)
+	for len(work) > 0 {
+		x := work[len(work)-1]
+		work = work[:len(work)-1]
+		in, ok := x.(ssa.Instruction)
+		if !ok {
+			continue
+		}
+		for _, op := range in.Operands(nil) {
+			if op != nil && *op != nil {
+				push(*op)
+			}
+		}
+		if al, ok := x.(*ssa.Alloc); ok {
+			// the object's contents: stores into it (directly or through field / element addresses), calls that get it
+			var addrs []ssa.Value = []ssa.Value{al}
+			for i := 0; i < len(addrs) && i < 64; i++ {
+				for _, ref := range refs(addrs[i]) {
+					switch y := ref.(type) {
+					case *ssa.FieldAddr:
+						addrs = append(addrs, y)
+					case *ssa.IndexAddr:
+						addrs = append(addrs, y)
+					case *ssa.Store:
+						if y.Addr == addrs[i] {
+							push(y.Val)
+						}
+					case *ssa.Call:
+						for _, a := range y.Call.Args {
+							push(a)
+						}
+					}
+				}
+			}
+		}
+	}
+	return out
+}
+
+// sliceRoot strips re-slicing and phis with a single distinct source: the object a slice value is a window of.
+func sliceRoot(v ssa.Value) ssa.Value {
+	for i := 0; i < 8; i++ {
+		v = stripChange(v)
+		switch x := v.(type) {
+		case *ssa.Slice:
+			v = x.X
+			continue
+		case *ssa.Phi:
+			var only ssa.Value
+			same := true
+			for _, e := range x.Edges {
+				r := sliceRoot(e)
+				if only == nil {
+					only = r
+				} else if only != r {
+					same = false
+				}
+			}
+			if same && only != nil {
+				return only
+			}
+		}
+		break
+	}
+	return v
+}
+
+// reachableBlockEdgeFree: block to can be reached from block from (or is the same block).
+func reachableBlockEdgeFree(from, to *ssa.BasicBlock) bool {
+	return from == to || reachableBlock(from, to)
 }
